@@ -335,14 +335,74 @@ func (eng *Engine) strLit(x *Exec, s string) Term {
 	return TInt(int64(id))
 }
 
+// strConcat builds a+b in a normal form: concatenations are flattened and re-nested to the
+// right, "" is dropped and adjacent literals are joined into one literal, so that the value does
+// not depend on how the source groups or pre-computes the pieces.
 func (eng *Engine) strConcat(x *Exec, a, b Term) Term {
-	if a.S == "0" {
-		return b
+	atoms := append(concatAtoms(a), concatAtoms(b)...)
+	var out []Term
+	for _, t := range atoms {
+		if t.S == "0" {
+			continue
+		}
+		if n := len(out); n > 0 {
+			if l1, ok1 := eng.litString(out[n-1]); ok1 {
+				if l2, ok2 := eng.litString(t); ok2 {
+					out[n-1] = eng.strLit(x, l1+l2)
+					continue
+				}
+			}
+		}
+		out = append(out, t)
 	}
-	if b.S == "0" {
-		return a
+	if len(out) == 0 {
+		return TInt(0)
 	}
-	return UF(SI, "str.concat", a, b)
+	r := out[len(out)-1]
+	for i := len(out) - 2; i >= 0; i-- {
+		r = UF(SI, "str.concat", out[i], r)
+	}
+	return r
+}
+
+// litString: the Go string a literal id stands for.
+func (eng *Engine) litString(t Term) (string, bool) {
+	n, ok := litVal(t)
+	if !ok || !n.IsInt64() || n.Int64() < 1000 {
+		return "", false
+	}
+	for s, id := range eng.strLits {
+		if int64(id) == n.Int64() {
+			return s, true
+		}
+	}
+	return "", false
+}
+
+// concatAtoms flattens nested (str.concat a b) terms.
+func concatAtoms(t Term) []Term {
+	const p = "(str.concat "
+	if !strings.HasPrefix(t.S, p) {
+		return []Term{t}
+	}
+	body := t.S[len(p) : len(t.S)-1]
+	depth, cut := 0, -1
+	for i, c := range body {
+		switch c {
+		case '(':
+			depth++
+		case ')':
+			depth--
+		case ' ':
+			if depth == 0 && cut < 0 {
+				cut = i
+			}
+		}
+	}
+	if cut < 0 {
+		return []Term{t}
+	}
+	return append(concatAtoms(Term{body[:cut], SI}), concatAtoms(Term{body[cut+1:], SI})...)
 }
 
 func (eng *Engine) strHasPrefix(x *Exec, a, b Term) Term {
